@@ -41,7 +41,7 @@ options = st.fixed_dictionaries(
         "tie_place": st.sampled_from(["start", "end", "last"]),
         "tie_attr": st.booleans(),
         "grouping": st.sampled_from(["flat", "flat", "flat", "nested-all", "nested-all", "nested-tail", "nested-tail", "grpsym", "grpsym", "nested-head"]),
-        "space_nodur": st.sampled_from([False, False, False, True]),
+        "space_nodur": st.booleans(),
         "xstaff": st.lists(st.sampled_from([False, False, False, False, True]), min_size=5, max_size=5),
         "clef0": st.lists(st.one_of(st.none(), st.integers(0, len(CLEFS) - 1)), min_size=3, max_size=3),
         "clef_style": st.sampled_from(["child", "attrs"]),
